@@ -12,7 +12,18 @@ RULE = ("abstract, explicitly typed programs of vf/gen/c3gen.py rendered as C3 a
         "short-circuit conditions of depth <= 2 as value / branch / loop condition, with side-effecting right operands; S statement "
         "skeletons of nesting depth <= 2 over if, if/else, while, for, switch, return, calls; A aggregates (struct fields, nested structs, "
         "arrays, initialisers, pointers, sizeof); X shorthand assignment through every lvalue kind, bool storage, typedefs, literal "
-        "conditions, scoping; CONST constant expressions of depth <= 2 in const definitions and global initialisers; MOD two modules; each "
+        "conditions, scoping; CONST constant expressions of depth <= 2 in const definitions and global initialisers; MOD two modules; GI global initial values (every "
+        "scalar type as scalar / array element / struct field in 2-3 spellings, aggregates nested to depth 2, run-time initialisers of local "
+        "structs); STR string literals (5 texts of length 0..20 x 4 contexts, every character, the length-prefixed layout through a byte "
+        "pointer); PCAST integer <-> pointer casts for all 10 integer types, round trips, address differences, byte views, pointer "
+        "coercions, byte-wise pointer +- int; EXT external functions (result x parameter type matrix, 19 call shapes, implicit argument "
+        "conversions, externals of an imported module) with the external call trace compared; REC self-referential and mutually "
+        "referential structs through pointers; MODX mutual imports, a module in two sources, import chains, qualified types / variables / "
+        "constants; KUSE constants of every type, constant expressions with casts / floats / narrow types, constants as array sizes, loop "
+        "bounds, case labels, initial values; COERCE implicit conversion at local initialisers, shorthand assignment, array index, switch "
+        "selector and in if / while / for conditions over all type pairs; plus, per family, the programs ppci's own tests / the coercion "
+        "table say are not C3 (wrong initialiser shape, by-value recursion, private access, non-bool condition, every non-implicit type "
+        "pair ...) which must be refused with a diagnostic; each "
         "function is called on the product of boundary values of its parameter types (cap 64) or on {-7..7}^2; the gcc rendering decides "
         "the expected return value and scalar/array globals; calls with undefined behaviour (UBSan trap, signal, narrow-type overflow "
         "marker) are discarded; distinct non-trivial = distinct (family, feature class, returned value)")
@@ -23,13 +34,36 @@ ASSUMPTIONS = ["gcc 12.2 -O0 -fsanitize=undefined -fsanitize-undefined-trap-on-e
                "type (unsigned: modulo; signed: the call is discarded when the result does not fit), every switch case ends in break, "
                "and/or/not are && || !, cast<T>(e) is (T)e; nothing relies on C's integer promotions or precedence (full parentheses)",
                "vf/sem/irinterp.py executes ppci's IR (validated against gcc by C01 and against ir2py by C24)",
+               "layout facts of C3 that the C rendering spells out because C has no counterpart: a string is a pointer to {int length; byte "
+               "text[length]} with no terminator and no escape sequences (scope.create_top_scope, context.pack_string, librt/io.c3), rendered as a "
+               "C object of that shape; structs have no padding (context.size_of = sum of the members), used only where sizeof of a struct is "
+               "returned, never for field access; pointer +- int adds the integer to the address without scaling (codegenerator.gen_binop; "
+               "test_pointer_arithmatic), rendered through char *; integer <-> pointer casts behave as gcc's (value preserving, extension by "
+               "the signedness of the source, truncation to the target width); addresses themselves are never compared between the two sides, "
+               "only differences, round trips and what is read through them",
+               "an external function has the same fixed semantics on both sides (c3gen.ext_c_def / c37.make_external: result = 3 * sum of the "
+               "argument words + id + 1, int* arguments are read and incremented, strings are read); the sequence of external calls with their "
+               "argument values is part of the observation.  Operands and arguments are evaluated left to right in C3 (one instruction stream, "
+               "no unsequenced evaluation): the C rendering sequences calls with side effects through temporaries in that order",
+               "a constant expression has the value the same expression has at run time (C3 types it by the same rules: check_module coerces "
+               "every constant to its declared type), so the C rendering computes byte arithmetic modulo 256 and float conversions in single precision",
+               "programs expected to be refused: a diagnostic is the expected outcome; an accepted one or an internal error is listed "
+               "(invalid_accepted_programs, invalid_internal_errors), never reported here.  In the extension families (GI STR PCAST EXT REC MODX "
+               "KUSE COERCE) an internal front-end error on a valid program is listed too (c3_crash_loci): property C28 runs the same programs "
+               "and owns that verdict; a diagnostic on a construct that ppci's documentation / tests use is listed in c3_rejected_documented",
                "a program the C3 front end rejects with a diagnostic is counted and listed, not judged (it is then not a program of the "
                "language ppci defines); an internal error (any exception other than a compiler diagnostic) on a program whose C rendering "
                "runs defined is a violation: no IR was generated"]
-CLAIM = {"technique": "bounded exhaustive enumeration of typed programs rendered as C3 and C, executed on the real front end, against gcc+UBSan",
+CLAIM = {"text": "inside the enumerated subset (operators, conversions, statements, aggregates, initial values, strings, pointer casts, externals, "
+                 "recursive types, modules, constants) every C3 program the front end accepts returns the value, leaves the globals and makes the "
+                 "external calls that gcc gives for the C rendering of the same program; the listed invalid programs are refused",
+         "note": "trusted: gcc+UBSan, the reference IR interpreter, the C rendering rules in ASSUMPTIONS; internal front-end errors of the extension families are left to C28",
+         "technique": "bounded exhaustive enumeration of typed programs rendered as C3 and C, executed on the real front end, against gcc+UBSan",
          "engine": "K1 input enumeration vs gcc"}
 
 C3_BATCH = 24
+# families whose internal front-end errors are listed (set c3_crash_loci) instead of reported: property C28 owns them
+LISTED_CRASH_FAMILIES = ("GI", "STR", "PCAST", "EXT", "REC", "MODX", "KUSE", "COERCE")
 
 
 def compile_c3(texts):
@@ -76,15 +110,67 @@ def compile_batch(cases, idxs, out):
     compile_batch(cases, idxs[h:], out)
 
 
+M64 = (1 << 64) - 1
+
+
+def make_external(x, trace):
+    """The interpreter-side twin of c3gen.ext_c_def: append (id, one word per argument) to the trace; result = 3 * (sum of the argument
+    words) + id + 1 modulo 2^64 converted to the result type; an int* argument contributes the pointed-to value, which is then
+    incremented; a string argument contributes its length and a hash of its text (read through the documented layout)."""
+    import struct
+
+    def s64(v):
+        v &= M64
+        return v - (1 << 64) if v >> 63 else v
+
+    def call(it, args):
+        trace.append(x["id"])
+        s = 0
+        for t, a in zip(x["params"], args):
+            if t in ("float", "double"):
+                trace.append(struct.unpack("<Q", struct.pack("<d", float(a)))[0])
+                s += int(a)
+            elif t == "int*":
+                v = int.from_bytes(it.read_bytes(a, 4), "little", signed=True)
+                trace.append(v & M64)
+                s += v
+                it.write_bytes(a, ((v + 1) & 0xFFFFFFFF).to_bytes(4, "little"))
+            elif t == "string":
+                n = int.from_bytes(it.read_bytes(a, 4), "little", signed=True)
+                h = 0
+                for ch in it.read_bytes(a + 4, n) if n > 0 else b"":
+                    h = (h * 31 + ch) & M64
+                trace.extend([n & M64, h])
+                s += n
+            else:
+                trace.append(int(a) & M64)
+                s += int(a)
+        r = (3 * s + x["id"] + 1) & M64
+        rt = x["ret"]
+        if rt == "void":
+            return None
+        if rt == "bool":
+            return r & 1
+        if rt in ("float", "double"):
+            return float(s64(r)) + 0.5
+        return r
+    return call
+
+
 def run_ppci(m, k, case, vec):
-    """-> ('ok', ret, {global: hex}) | ('undef'|'horizon'|'unsupported', msg)"""
+    """-> ('ok', ret, {global: hex}, external call trace) | ('undef'|'horizon'|'unsupported', msg)"""
     from vf.sem.irinterp import Interp, Undefined, Horizon, Unsupported
     try:
-        it = Interp(m, ptr_size=8, max_steps=40000)
+        suffix = "_%d" % k
+        trace = []
+        ext = {("%s_%s" % (x["mod"], x["name"])).replace("@", suffix): make_external(x, trace) for x in case.get("externs", [])}
+        it = Interp(m, ptr_size=8, max_steps=40000, externals=ext)
         r = it.call("m_f_%d" % k, vec)
-        names = {"m_" + g.replace("@", "_%d" % k): g.replace("@", "_%d" % k) for g in case["cmp_globals"]}
+        names = {"m_" + g.replace("@", suffix): g.replace("@", suffix) for g in case["cmp_globals"]}
         mem = {names[n]: bytes(reg.data[:reg.size]).hex() for n, reg in it.globals if n in names}
-        return ("ok", r, mem)
+        if case.get("externs") and [n for n, _ in it.trace if n not in ext]:
+            return ("unsupported", "call of an external the harness did not define: %r" % [n for n, _ in it.trace if n not in ext][:1])
+        return ("ok", r, mem, trace)
     except Undefined as e:
         return ("undef", str(e))
     except Horizon as e:
@@ -93,6 +179,17 @@ def run_ppci(m, k, case, vec):
         return ("unsupported", str(e))
     except RecursionError:
         return ("horizon", "recursion")
+
+
+def c_trace(case, k, mem):
+    """The external call trace the C rendering recorded (None when the case has no externals)."""
+    if not case.get("externs"):
+        return None
+    suffix = "_%d" % k
+    n = int.from_bytes(bytes.fromhex(mem["vf_tn" + suffix]), "little", signed=True)
+    raw = bytes.fromhex(mem["vf_tr" + suffix])
+    words = [int.from_bytes(raw[i:i + 8], "little") for i in range(0, len(raw), 8)]
+    return n, words[:min(n, 64)]
 
 
 def same(a, b):
@@ -116,6 +213,9 @@ def generalise(case):
         b, sg = c3gen.INTS[t]
         return ("s" if sg else "u") + ("<int" if b < 32 else ("int" if b == 32 else ">int"))
 
+    if case.get("locus"):
+        # several forms of one mechanism share a locus
+        return case["fam"] + "/" + case["locus"]
     parts = case["feat"].split("/")
     out = []
     for x in parts:
@@ -168,7 +268,7 @@ class LazyKey:
 def witness(case, vec):
     w = {"c3": case["c3"], "src": case["src"], "fname": case["fname"], "ret": case["ret"], "params": case["params"], "globals": case["globals"],
          "cmp_globals": case["cmp_globals"], "fam": case["fam"], "feat": case["feat"], "vector": vec}
-    for opt in ("c3mods", "const_tree"):
+    for opt in ("c3mods", "const_tree", "externs", "expect", "ref", "locus"):
         if case.get(opt):
             w[opt] = case[opt]
     return w
@@ -181,10 +281,39 @@ def compare(p, case, k, gres, st, order):
         p.count("gcc_rejects_rendering")
         p.collect("gcc_rejected_features", feat)
         return
+    if case.get("expect") == "diagnostic":
+        # a program that is not C3: the answer must be a diagnostic; nothing is executed.  Anything else is listed, never a violation of
+        # this property (an internal error instead of a diagnostic is C28's subject, an accepted invalid program has no prescribed value)
+        p.add()
+        if st[0] == "rejected":
+            p.count("invalid_refused")
+            import re
+            p.outcome((case["fam"], "invalid", case["feat"].split("/")[1], re.sub(r"_\d+\b", "@", st[1])[:24]))
+        elif st[0] == "crash":
+            from vf.core import exc_key
+            p.count("invalid_internal_error")
+            # (the innermost frame of a RecursionError depends on the depth the compiler was called at)
+            p.collect("invalid_internal_errors", "%s: %s" % (feat, "RecursionError" if isinstance(st[1], RecursionError) else exc_key("", st[1]).split("/", 1)[1]))
+        else:
+            p.count("invalid_accepted")
+            p.collect("invalid_accepted_programs", feat)
+        return
     if st[0] == "rejected":
         p.add()
         p.count("c3_rejects")
-        p.collect("c3_rejected", "%s: %s" % (generalise(case), st[1][:50]))
+        import re
+        msg = re.sub(r"_\d+\b", "@", st[1])[:50]  # (the per-case suffix of file-scope names is not part of the message)
+        p.collect("c3_rejected", "%s: %s" % (generalise(case), msg))
+        if case.get("ref"):
+            # ppci's own documentation / tests use this construct: a suspected defect, reported separately from wrong values
+            p.count("c3_rejects_documented_construct")
+            p.collect("c3_rejected_documented", "%s: %s  [%s]" % (feat, msg, case["ref"]))
+        return
+    if st[0] == "crash" and case["fam"] in LISTED_CRASH_FAMILIES:
+        from vf.core import exc_key
+        p.add()
+        p.count("c3_crashes")
+        p.collect("c3_crash_loci", exc_key(generalise(case), st[1]))
         return
     if st[0] == "crash":
         # an internal error (not a diagnostic) on a program whose C rendering gcc compiles and runs without undefined behaviour:
@@ -210,6 +339,7 @@ def compare(p, case, k, gres, st, order):
         r = run_ppci(m, k, case, vec)
         if r[0] == "unsupported":
             p.count("unclassified_unsupported")
+            p.collect("unclassified", "%s: %s" % (feat, r[1][:60]))
             continue
         w = witness(case, vec)
         o = order * 100 + vi
@@ -227,8 +357,12 @@ def compare(p, case, k, gres, st, order):
             p.violation(key + "/result", "%s f%r = %r in ppci's IR, gcc gives %r for the C rendering" % (text, tuple(vec), r[1], g[1]), w, o)
         elif r[2] != gmem:
             p.violation(key + "/memory", "%s f%r leaves globals %r, gcc %r" % (text, tuple(vec), r[2], gmem), w, o)
+        elif case.get("externs") and c_trace(case, k, g[2]) != (len(r[3]), r[3][:64]):
+            ct = c_trace(case, k, g[2])
+            p.violation(key + "/external-calls", "%s f%r calls its externals as %r (id, argument words...) in ppci's IR, the C rendering as %r"
+                        % (text, tuple(vec), [hex(v) for v in r[3][:12]], [hex(v) for v in ct[1][:12]]), w, o)
         else:
-            p.outcome((case["fam"], generalise(case), repr(g[1])))
+            p.outcome((case["fam"], generalise(case), repr(g[1])) + ((tuple(r[3][:8]),) if case.get("externs") else ()))
 
 
 def gcc_run(cases, d, tag, batch=150):
@@ -275,8 +409,13 @@ def worker(p, shard):
     with scratch("C37") as d:
         gres = gcc_run(cases, d, "w%d_" % os.getpid())
     sts = {}
-    for s in range(0, len(cases), C3_BATCH):
-        compile_batch(cases, list(range(s, min(s + C3_BATCH, len(cases)))), sts)
+    # programs expected to be refused are compiled alone (in a batch they would only force the bisection)
+    batched = [k for k, c in enumerate(cases) if not c.get("expect")]
+    for k, c in enumerate(cases):
+        if c.get("expect"):
+            compile_batch(cases, [k], sts)
+    for s in range(0, len(batched), C3_BATCH):
+        compile_batch(cases, batched[s:s + C3_BATCH], sts)
     for k, case in enumerate(cases):
         compare(p, case, k, gres[k], sts[k], orders[k])
 
@@ -290,7 +429,8 @@ def run(ctx):
         fam[c["fam"]] = fam.get(c["fam"], 0) + 1
     ctx.note("programs", len(cases))
     ctx.note("families", fam)
-    for c in (cases[0], [x for x in cases if x["fam"] == "S"][40], [x for x in cases if x["fam"] == "A"][0]):
+    pick = lambda f, n=0: [x for x in cases if x["fam"] == f][n]  # noqa
+    for c in (cases[0], pick("S", 40), pick("A"), pick("GI", 40), pick("EXT", 30)):
         ctx.sample({"family": c["fam"], "feature": c["feat"], "c3": c["c3"], "c": c["src"].split("\n", 5)[-1], "vectors": c["vectors"][:3]})
     ctx.pmap(worker, list(enumerate(cases)), nshards=64)
     total = ctx.evaluations
